@@ -232,21 +232,32 @@ RX_ATOMS = ("cumulative_tsn_ack",)
 TX_ATOMS = ("next_tsn", "advanced_peer_ack_tsn", "fast_recovery_exit_tsn")
 
 
-def _space_markers(t):
+# TSNs read from the wire belong to a space too: a SACK acknowledges OUR TSNs (cumulative ack, gap blocks), DATA and
+# FORWARD-TSN carry the PEER's. Keyed by the handler the 32-bit read happens in / the parameter it is passed as.
+WIRE_SPACE = {"handle_sack": "TX", "handle_data": "RX", "handle_forward_tsn": "RX"}
+PARAM_SPACE = {("apply_sack_to_sent_queue", "cumulative_tsn_ack"): "TX", ("update_advanced_peer_ack_point", "cumulative_tsn_ack"): "TX"}
+
+
+def _space_markers(t, fn=""):
     m = set()
+    base = fn.split("::{closure")[0].split("::")[-1]
     for x in mir.walk(t):
         if x[0] == "field":
             if x[2] in RX_ATOMS or x[2] == "received_queue":
                 m.add("RX")
             elif x[2] in TX_ATOMS or x[2] == "sent_queue":
                 m.add("TX")
+        elif x[0] == "call" and x[1].endswith("Buf::get_u32") and base in WIRE_SPACE:
+            m.add(WIRE_SPACE[base])
+        elif x[0] == "arg" and (base, x[1]) in PARAM_SPACE:
+            m.add(PARAM_SPACE[(base, x[1])])
     return m
 
 
 def _space_alts(b, t, depth=0):
     """alternative marker sets of a term: one per combination of definitions of the multiply-defined
     locals ('var' nodes) it mentions (bounded)"""
-    base = _space_markers(t)
+    base = _space_markers(t, b.name)
     vs = []
     for x in mir.walk(t):
         if x[0] == "var" and len(x) > 2 and x[2] not in [v[2] for v in vs]:
